@@ -352,15 +352,15 @@ func (doc *Document) Warnings() (warnings Warnings) {
 			context.Family = family
 		}
 
-		Filter(node, doc, func(node Node) (newNode Node, traverseChildren bool) {
+		// This must not use Filter because that makes a copy of the nodes
+		// into the document, which adds a family for every family.
+		walkNodes(node, func(node Node) {
 			if warner, ok := node.(Warner); ok {
 				for _, warning := range warner.Warnings() {
 					warning.SetContext(context)
 					warnings = append(warnings, warning)
 				}
 			}
-
-			return node, true
 		})
 	}
 
